@@ -459,3 +459,22 @@ def _(v):
     v.prove_identity("quotient", v.call(ma.active_conc_prod, var, equilibrium=eq), cC ** 3 / (cA ** 2 * cB))
     v.prove("eq_const", v.eq(v.call(ma, var), K))
     v.prove_identity("equilibrium_equation", v.call(ma.equilibrium_equation, var, equilibrium=eq), K - cC ** 3 / (cA ** 2 * cB))
+
+
+@harness("C16", "as_RateExpr.named_override_replaces_only_A", functions=["chempy.kinetics.arrhenius:ArrheniusParam.as_RateExpr", "chempy.kinetics.eyring:EyringParam.as_RateExpr"], kind="shape-bounded", div_mode="assume", samples=15)
+def _(v):
+    """as_RateExpr(unique_keys=('A_fwd',)): supplying A_fwd replaces the pre-exponential factor and nothing else"""
+    from chempy.chemistry import Reaction
+    from chempy.kinetics.arrhenius import ArrheniusParam
+    A, Ea, T, A2 = v.real("A", lo=0.1, hi=1e12), v.real("Ea", lo=0, hi=3e5), v.real("T", lo=200, hi=2000), v.real("A_override", lo=0.1, hi=1e12)
+    cA = v.real("cA", lo=0.01, hi=5)
+    be = v.backend()
+    ratex = v.call(ArrheniusParam(A, Ea).as_RateExpr, ("A_fwd",))
+    rxn = Reaction({"A": 1}, {"P": 1}, None, checks=())
+    v.prove("key_reported", v.call(ratex.all_unique_keys) == {"A_fwd"})
+    r0 = v.call(ratex, {"A": cA, "temperature": T}, backend=be, reaction=rxn)
+    v.prove_identity("without_override", r0, A * be.exp(-Ea / (R_DEFAULT * T)) * cA)
+    r1 = v.call(ratex, {"A": cA, "temperature": T, "A_fwd": A2}, backend=be, reaction=rxn)
+    v.prove_identity("override_replaces_exactly_A", r1, A2 * be.exp(-Ea / (R_DEFAULT * T)) * cA)
+    two = v.run(ArrheniusParam(A, Ea).as_RateExpr, ("A_fwd", "Ea_fwd"))
+    v.prove("two_keys_accepted", two.returned, detail=repr(two.exc))
